@@ -180,9 +180,11 @@ def tasks(tier, seed):
     ts = [(verify, (c, m, q, v)) for c, m, q, v in misc.ALL if m == "functions"]
     for sh in tier_shapes(tier):
         ts.append((task_function, (sh, False)))
-        if (tier != "quick" and sh[0] <= 3) or sh[0] <= 2:
+        # rational functions in many symbolic weights blow up: rational / history runs up to degree 3 with <= 1 interior knot, degree 2 beyond
+        small = sh[0] <= 2 or (sh[0] == 3 and len(sh[1]) <= 1)
+        if small and (tier != "quick" or sh[0] <= 2):
             ts.append((task_function, (sh, True)))
-        if sh[0] <= 2 or tier != "quick":
+        if small and (sh[0] <= 2 or tier != "quick"):
             ts.append((task_history, (sh,)))
     return ts
 
